@@ -24,6 +24,7 @@ type SP struct {
 	alias string
 	eager bool // declared with several names: copied before its first step in every Grits mode
 	dead  bool
+	pruneAll bool // all names dropped and the search decided not to copy it: the next silent step removes it
 }
 
 type M struct {
@@ -251,6 +252,12 @@ func (m *M) silent(p *SP, lazyCopy bool) bool {
 			// process, or copying it first and letting the dropped copy go, are both behaviours
 			// of the interpreters (the copy duplicates the providers of its free names): a choice
 			// for the search (actions aPrune / aCopy), not a silent step
+			return false
+		}
+		if len(live) == 0 && len(p.names) > 1 && !p.pruneAll {
+			// every name of a multi-name process has been dropped: the interpreters may still copy
+			// it first (and its providers with it) and let the copies go: a choice for the search
+			// (actions aPrune / aCopy), as above
 			return false
 		}
 		for _, n := range p.names {
@@ -726,7 +733,7 @@ func (m *M) actions() []action {
 					nd++
 				}
 			}
-			if nd > 0 && nd < len(p.names) {
+			if nd > 0 && nd <= len(p.names) {
 				// listed first: the lazy discipline forgets dropped names instead of copying
 				out = append(out, action{i, aPrune, false}, action{i, aCopy, false})
 				continue
@@ -776,10 +783,19 @@ func (m *M) apply(a action) string {
 	case aPrune:
 		var live []int
 		for _, n := range p.names {
+			if !m.dropped[n] {
+				live = append(live, n)
+			}
+		}
+		if len(live) == 0 {
+			// all names dropped: let the next silent step kill it (and pass the drop on)
+			p.pruneAll = true
+			m.Steps++
+			break
+		}
+		for _, n := range p.names {
 			if m.dropped[n] {
 				delete(m.prov, n)
-			} else {
-				live = append(live, n)
 			}
 		}
 		p.names = live
